@@ -482,6 +482,25 @@ pub fn c18(em: &mut Emit, thorough: bool, _seed: u64) {
                     "reuse",
                 );
             }
+            // truncated, seen to be truncated by one stream, grown back, read again by another
+            // stream of the SAME instance: what one stream learnt about the end of the file is
+            // not a fact about the file
+            {
+                write_file(&path, size);
+                let crf = Arc::new(Crf::new(std::fs::File::open(&path).unwrap(), HeaderMap::new()).unwrap());
+                std::fs::OpenOptions::new().write(true).open(&path).unwrap().set_len(size / 2).unwrap();
+                let (o1, _) = poll_file(&rt, &path, &crf, 0, size, &[], 8);
+                let saw_eof = o1.iter().any(|o| matches!(o, FOut::Eof | FOut::OtherErr(_)));
+                write_file(&path, size);
+                let (o2, _) = poll_file(&rt, &path, &crf, 0, size, &[], 8);
+                let got: Vec<u8> = o2.iter().filter_map(|o| if let FOut::Chunk(_, d) = o { Some(d.clone()) } else { None }).flatten().collect();
+                let ok = saw_eof && o2.last() == Some(&FOut::End) && got == content(0..size);
+                em.pred_only(
+                    &format!("file of {} bytes, one instance: truncated to {} and read (fails), written back in full, read again", size, size / 2),
+                    &pred(ok, || format!("first stream failed: {}; second stream: {}", saw_eof, show_fouts(&o2))),
+                    "reuse-regrow",
+                );
+            }
             write_file(&path, size);
         }
         // --- ETag / metadata
